@@ -1156,6 +1156,8 @@ def pad_stats(array, pad_width, mode, stat_length):
     if mode == "median":
         raise NotImplementedError("`pad` does not support `mode` of `median`.")
 
+    if stat_length is None:
+        stat_length = tuple((n, n) for n in array.shape)
     stat_length = expand_pad_value(array, stat_length)
 
     result = np.empty(array.ndim * (3,), dtype=object)
